@@ -294,6 +294,28 @@ func genDevice(r *RNG, b *iosDev) (*iosDev, []string) {
 		a.Intfs = append(a.Intfs, in)
 		a.Routes = append(a.Routes, "vrf OTHER 10.66.0.0 255.255.0.0 10.99.0.254")
 		say("unmanaged-vrf")
+		// further interfaces of the same unmanaged VRF, each with its own bindings: a generated (-DRC-) ACL,
+		// an ACL shared with a managed interface, a hand-made one
+		for k, n := 0, r.Intn(3); k < n; k++ {
+			in2 := &iosIntf{Name: fmt.Sprintf("Ethernet9%d", k), Addr: fmt.Sprintf("10.99.%d.1 255.255.255.0", k+1), VRF: "OTHER"}
+			switch r.Intn(3) {
+			case 0:
+				name := fmt.Sprintf("gone%d-DRC-%d", k, r.Intn(2))
+				a.setBodies(name, []string{"permit udp any any eq 53", "deny ip any any"})
+				in2.In = name
+			case 1:
+				if len(a.Intfs) > 0 && a.Intfs[0].In != "" && a.Intfs[0].VRF != "OTHER" {
+					in2.In = a.Intfs[0].In // shared with a managed interface
+					say("unmanaged-vrf-interface-shares-acl-with-managed-interface")
+				}
+			default:
+				name := fmt.Sprintf("hand%d", k)
+				a.setBodies(name, []string{"permit ip host 10.99.9.9 any"})
+				in2.Out = name
+			}
+			a.Intfs = append(a.Intfs, in2)
+			say("unmanaged-vrf-further-interface")
+		}
 	}
 	if r.Chance(15) {
 		in := &iosIntf{Name: "Loopback7", Addr: "10.77.0.1 255.255.255.255"}
